@@ -127,18 +127,25 @@ func shistory(t *stoks) (res string) {
 	for i := range clusters {
 		clusters[i] = t.i64()
 	}
-	mode := t.next() // deny | allow | both | wide
+	// mode = <lists>[@<via>]
+	//   lists: deny | allow | both | wide                      real patterns built from the rejected-id set
+	//          edeny | eallow | eboth                          the list key is PRESENT BUT EMPTY ("" = no list configured)
+	//          edeny_allow | eallow_deny                       one key present-but-empty, a real pattern on the other list
+	//   via:   (none) | set    every option through viper.Set
+	//          toml            every option in a TOML document read with viper.ReadConfig (what a deployed Burrow does)
+	//          dflt            as toml, but intervals / expire-group / min-distance are left out of the document: the header
+	//                          must then carry the documented defaults (10, 604800, 0)
+	// Whatever the mode, every option reaches the module through the real Configure; the model gets them from the header.
+	mode := t.next()
 	nrej := int(t.i64())
 	rej := map[int64]bool{}
 	for i := 0; i < nrej; i++ {
 		rej[t.i64()] = true
 	}
-	viper.Reset()
-	viper.Set("storage.test.class-name", "inmemory")
-	viper.Set("storage.test.intervals", intervals)
-	viper.Set("storage.test.expire-group", expire)
-	viper.Set("storage.test.min-distance", mindist)
-	viper.Set("storage.test.workers", 1)
+	lists, via := mode, "set"
+	if k := strings.Index(mode, "@"); k >= 0 {
+		lists, via = mode[:k], mode[k+1:]
+	}
 	var denied, allowed []string
 	for g := int64(0); g <= 9; g++ {
 		if rej[g] {
@@ -147,22 +154,86 @@ func shistory(t *stoks) (res string) {
 			allowed = append(allowed, "g"+strconv.FormatInt(g, 10))
 		}
 	}
-	if (mode == "deny" || mode == "both") && len(denied) > 0 {
-		viper.Set("storage.test.group-denylist", "^("+strings.Join(denied, "|")+")$")
-	}
-	if mode == "allow" || mode == "both" {
-		viper.Set("storage.test.group-allowlist", "^("+strings.Join(allowed, "|")+")$")
-	}
-	if mode == "wide" {
+	denyPat := "^(" + strings.Join(denied, "|") + ")$"
+	allowPat := "^(" + strings.Join(allowed, "|") + ")$"
+	var allowKey, denyKey *string // nil = key absent
+	empty := ""
+	wideAllow := "^(g[0-9]+)?$"
+	switch lists {
+	case "deny":
+		if len(denied) > 0 {
+			denyKey = &denyPat
+		}
+	case "allow":
+		allowKey = &allowPat
+	case "both":
+		allowKey = &allowPat
+		if len(denied) > 0 {
+			denyKey = &denyPat
+		}
+	case "wide":
 		// allowlist matches every generated name (incl. the empty one); exactly the rej ids are denied, so a rejected
 		// name is matched by BOTH lists (C10-storage)
-		viper.Set("storage.test.group-allowlist", "^(g[0-9]+)?$")
+		allowKey = &wideAllow
 		if len(denied) > 0 {
-			viper.Set("storage.test.group-denylist", "^("+strings.Join(denied, "|")+")$")
+			denyKey = &denyPat
 		}
+	case "edeny":
+		denyKey = &empty
+	case "eallow":
+		allowKey = &empty
+	case "eboth":
+		allowKey, denyKey = &empty, &empty
+	case "edeny_allow":
+		denyKey, allowKey = &empty, &allowPat
+	case "eallow_deny":
+		allowKey = &empty
+		if len(denied) > 0 {
+			denyKey = &denyPat
+		}
+	default:
+		panic("unknown list mode " + lists)
 	}
-	for _, c := range clusters {
-		viper.Set("cluster."+sname("k", c)+".class-name", "kafka")
+	viper.Reset()
+	switch via {
+	case "set":
+		viper.Set("storage.test.class-name", "inmemory")
+		viper.Set("storage.test.intervals", intervals)
+		viper.Set("storage.test.expire-group", expire)
+		viper.Set("storage.test.min-distance", mindist)
+		viper.Set("storage.test.workers", 1)
+		if denyKey != nil {
+			viper.Set("storage.test.group-denylist", *denyKey)
+		}
+		if allowKey != nil {
+			viper.Set("storage.test.group-allowlist", *allowKey)
+		}
+		for _, c := range clusters {
+			viper.Set("cluster."+sname("k", c)+".class-name", "kafka")
+		}
+	case "toml", "dflt":
+		var doc strings.Builder
+		doc.WriteString("[storage.test]\nclass-name=\"inmemory\"\nworkers=2\nqueue-depth=3\n")
+		if via == "toml" {
+			fmt.Fprintf(&doc, "intervals=%d\nexpire-group=%d\nmin-distance=%d\n", intervals, expire, mindist)
+		} else if intervals != 10 || expire != 604800 || mindist != 0 {
+			panic("mode @dflt needs the documented defaults 10 604800 0 in the header")
+		}
+		if denyKey != nil {
+			fmt.Fprintf(&doc, "group-denylist='%s'\n", *denyKey)
+		}
+		if allowKey != nil {
+			fmt.Fprintf(&doc, "group-allowlist='%s'\n", *allowKey)
+		}
+		for _, c := range clusters {
+			fmt.Fprintf(&doc, "[cluster.%s]\nclass-name=\"kafka\"\n", sname("k", c))
+		}
+		viper.SetConfigType("toml")
+		if err := viper.ReadConfig(strings.NewReader(doc.String())); err != nil {
+			panic(err)
+		}
+	default:
+		panic("unknown config path " + via)
 	}
 	module := &InMemoryStorage{Log: zap.NewNop()}
 	module.App = &protocol.ApplicationContext{StorageChannel: make(chan *protocol.StorageRequest)}
